@@ -71,6 +71,7 @@ TopTypes(n) == SubSeq(vstack, Len(vstack) - n + 1, Len(vstack))
 Pop(n) == SubSeq(vstack, 1, Len(vstack) - n)
 Emit(is) == code' = code \o is
 (* a value that differs from walk to walk but is a function of the state: keeps the number of successors small *)
+Has(f) == f \in Features
 Mix == Len(code) + 3 * Len(vstack) + 5 * Len(cstack)
 
 -----------------------------------------------------------------------------
@@ -240,6 +241,21 @@ Call == /\ Live /\ Growing
                                /\ \E ind \in BOOLEAN : Emit(IF ind THEN <<I("i32.const", "slot", s), I("call_indirect", s, "")>> ELSE <<I("call", s, "")>>)
         /\ UNCHANGED <<cstack, bad, fin>>
 
+(* calls of wide signatures: the operands come from the scratch locals (alternating between the two of each type), so
+   the call is possible whatever is on the stack; as a tail call when the callee's results are the function's *)
+Supply2(ts) == [k \in 1..Len(ts) |-> I("local.get", TmpOf(ts[k]) + (k % 2), "")]
+CallWide ==
+  /\ Live /\ Growing /\ Len(code) % 3 = 0
+  /\ \E s \in CallSigs :
+       /\ Len(s.p) >= 5 /\ \A k \in 1..Len(s.p) : s.p[k] \in NumT
+       /\ \E ind \in BOOLEAN :
+            \/ /\ Emit(Supply2(s.p) \o (IF ind THEN <<I("i32.const", "slot", s), I("call_indirect", s, "")>> ELSE <<I("call", s, "")>>))
+               /\ vstack' = vstack \o s.r /\ UNCHANGED cstack
+            \/ /\ Has("tailcall") /\ s.r = Results /\ Len(cstack) > 1 /\ Top.kind \in {"if", "else"}
+               /\ Emit(Supply2(s.p) \o (IF ind THEN <<I("i32.const", "slot", s), I("return_call_indirect", s, "")>> ELSE <<I("return_call", s, "")>>))
+               /\ cstack' = [cstack EXCEPT ![Len(cstack)].unreach = TRUE] /\ UNCHANGED vstack
+  /\ UNCHANGED <<bad, fin>>
+
 -----------------------------------------------------------------------------
 (* structured control *)
 BlockTypes == {<<>>} \cup {<<t>> : t \in NumT}
@@ -305,7 +321,6 @@ Exit == /\ Live /\ Growing /\ Len(cstack) > 1
    written), table 1 (funcref, 4..8 entries), table 2 (externref, 2..4), data segments 0-1 active (dropped after
    instantiation) and 2-3 passive, element segment 0 active and 1 passive.  Addresses, lengths, page counts and
    table indices are classes the driver draws from (mostly in range, sometimes just outside). *)
-Has(f) == f \in Features
 C32(class) == I("i32.const", class, "")
 
 (* operand classes: most draws stay inside the object, "X" classes lie around or beyond its end *)
@@ -518,7 +533,7 @@ MutateInvalid ==
 Step == \/ Plain \/ MemLoad \/ MemStore \/ MemLane \/ LocalGet \/ LocalSet \/ GlobalGet \/ GlobalSet \/ Drop \/ Select \/ Call
         \/ SetAddr \/ MemLoadReg \/ MemStoreReg \/ MemStoreAtom \/ GuardedAccess \/ FusedBin
         \/ MemSize \/ MemGrow \/ Bulk \/ RefProduce \/ RefConsume \/ TableOps \/ BrTable
-        \/ Atomic \/ AtomicAtom \/ Fence \/ TailCall \/ HostCall \/ OpenMulti \/ DeadCode
+        \/ Atomic \/ AtomicAtom \/ Fence \/ TailCall \/ HostCall \/ OpenMulti \/ DeadCode \/ CallWide
         \/ OpenBlock \/ OpenLoop \/ OpenIf \/ Else \/ End \/ BrIf \/ Exit \/ Close \/ Finish \/ MutateInvalid
 (* a comparison result is consumed by a conditional most of the time (OpenIf is enabled whenever the guard holds) *)
 Next == IF pend # "" THEN PickRel
